@@ -1023,7 +1023,7 @@ namespace avel {
         vec8x32i arg_exponent{_mm256_srli_epi32(exponent_field, 23)};
 
         // Perform two multiplications such that they should never lead to lossy rounding
-        vec8x32i lower_bound0{vec8x32i{1} - arg_exponent};
+        vec8x32i lower_bound0{clamp(vec8x32i{1} - arg_exponent, vec8x32i{-252}, vec8x32i{0})};
         vec8x32i upper_bound0{vec8x32i{254} - arg_exponent};
 
         vec8x32i extracted_magnitude = clamp(exp, lower_bound0, upper_bound0);
